@@ -2,6 +2,7 @@ import Dcg.Model.Constraints
 import Dcg.Gen.Constraints
 import Dcg.Proofs.Sem
 import Dcg.Props.C03
+import Dcg.Model.Siblings
 /-
 C04 — constraints stated in the schema are enforced by the generated model.
 Part 1 (this file): the keyword tables. The statements quantify over the tables regenerated from
@@ -89,6 +90,97 @@ theorem keyword_roundtrip_union_alternative (st : Style) (o : Opts) (ctx : Ctx) 
   rw [hmem]
   refine List.mem_map.mpr ⟨.scalar ty n b, by simp, ?_⟩
   simp only [altTy, Schema.isDisc, Bool.false_eq_true, if_false]
+
+/-! ### Validation keywords written NEXT TO `anyOf` / `oneOf`
+
+`{"anyOf": [A, B, …], "maxLength": 10}`: `parse_combined_schema` parses every inline member from
+`_deep_merge(base_object, member)` (`Dcg.Model.Siblings`: `distribute` = `map pushSib`, `trSib`). -/
+
+open Dcg.Sem Dcg.Model.Translate in
+/-- POSITION INDEPENDENCE: the member at ANY position of the list — whatever stands before it, a `null` member
+included — is merged with ALL sibling keywords, and so are the members before and after it. (A merge that
+consumes the keywords while walking the list — the seeded change C04-g — is not of this form.) -/
+theorem sibling_keywords_position_independent (sib : Bounds) (before after : List Schema) (s : Schema) :
+    distribute sib (before ++ s :: after) = distribute sib before ++ pushSib sib s :: distribute sib after := by
+  simp [distribute]
+
+open Dcg.Sem Dcg.Model.Translate in
+/-- ORDER INDEPENDENCE: listing the members in another order gives the same merged members, in that order. -/
+theorem sibling_keywords_order_independent (sib : Bounds) {alts alts' : List Schema} (h : alts.Perm alts') :
+    (distribute sib alts).Perm (distribute sib alts') := h.map _
+
+open Dcg.Sem Dcg.Model.Translate in
+/-- MEANING (anyOf): for members without keywords of their own (`{"type": T}`, `{"type": "null"}`), the
+combination of the merged members is valid exactly when the combination is valid AND the sibling keywords hold
+for the value — the JSON-Schema reading of keywords next to `anyOf`. Every fuel, every regex oracle. -/
+theorem anyOf_siblings_valid (re : Regex) (defs : Defs) (sib : Bounds) (alts : List Schema) (v : Json) (n : Nat)
+    (hp : alts.all plainMember = true) :
+    validJ re n defs (.anyOf (distribute sib alts)) v = (validJ re n defs (.anyOf alts) v && sibOK re sib v) := by
+  cases n with
+  | zero => simp [validJ]
+  | succ n =>
+    simp only [validJ]
+    have h := distribute_valid_map re defs sib v n alts hp
+    have e1 : ∀ L : List Schema, L.any (fun a => validJ re n defs a v) = (L.map (fun a => validJ re n defs a v)).any id := by
+      intro L; simp [List.any_map]
+    rw [e1, e1, h]
+    cases hs : sibOK re sib v <;> simp [List.any_map]
+
+open Dcg.Sem Dcg.Model.Translate in
+/-- MEANING (oneOf): the same for `oneOf` (exactly one member admits the value). -/
+theorem oneOf_siblings_valid (re : Regex) (defs : Defs) (sib : Bounds) (alts : List Schema) (v : Json) (n : Nat)
+    (hp : alts.all plainMember = true) :
+    validJ re n defs (.oneOf (distribute sib alts)) v = (validJ re n defs (.oneOf alts) v && sibOK re sib v) := by
+  cases n with
+  | zero => simp [validJ]
+  | succ n =>
+    simp only [validJ]
+    rw [distribute_valid_map re defs sib v n alts hp]
+    cases hs : sibOK re sib v
+    · have : ∀ L : List Schema, countTrue (L.map (fun _ => false)) = 0 := by
+        intro L; induction L with
+        | nil => rfl
+        | cons a as ih => simp [countTrue]
+      simp [this]
+    · simp
+
+open Dcg.Sem Dcg.Model.Translate in
+/-- non-vacuity: `{"anyOf": [{"type": "null"}, {"type": "string"}], "maxLength": 2}` — the `null` member first —
+refuses the three-letter string and admits the two-letter one and null -/
+example : plainMember .null = true ∧ plainMember (.scalar .string false {}) = true ∧
+    validJ (fun _ _ => true) 3 [] (.anyOf (distribute { maxLength := some 2 } [.null, .scalar .string false {}]))
+      (.str "abc".toList) = false ∧
+    validJ (fun _ _ => true) 3 [] (.anyOf (distribute { maxLength := some 2 } [.null, .scalar .string false {}]))
+      (.str "ab".toList) = true ∧
+    validJ (fun _ _ => true) 3 [] (.anyOf (distribute { maxLength := some 2 } [.null, .scalar .string false {}]))
+      .null = true := by decide
+
+open Dcg.Sem Dcg.Model.Translate in
+/-- STAGE 1, position independence: the alternative generated for the member at any position of a combination
+with sibling keywords is `trSibMember` of that member alone — it does not depend on the members listed before it. -/
+theorem sibling_member_translated_alone (st : Style) (o : Opts) (sib : Bounds) (before after : List Schema) (s : Schema) :
+    trSib st o sib (before ++ s :: after) =
+      .union (before.map (trSibMember st o sib) ++ trSibMember st o sib s :: after.map (trSibMember st o sib)) := by
+  simp [trSib]
+
+open Dcg.Sem Dcg.Model.Translate Dcg.Model.Report Dcg.Proofs.Sem in
+/-- STAGE 1, the keywords arrive: a numeric member (`integer` / `number`) at any position of a combination with
+sibling keywords is generated as the scalar with the MERGED keywords at an item place under a constrained
+parent, and is therefore reported with exactly the merged keywords and values — both styles, every routing.
+(`scalarOK` on the merged keywords: only keywords of the type, integer bounds written as integers — D10 excluded.) -/
+theorem keyword_roundtrip_sibling_member (st : Style) (o : Opts) (sib : Bounds) (ty : STy) (n : Bool) (b : Bounds)
+    (before after : List Schema) (hty : ty = .integer ∨ ty = .number)
+    (hok : scalarOK ty (mergeBounds b sib) = true) (hc : boundsHasConstraint (mergeBounds b sib) = true) :
+    ∃ t ∈ altTys (trSib st o sib (before ++ .scalar ty n b :: after)),
+      t = tr st o (.item true) (.scalar ty n (mergeBounds b sib)) ∧
+      reportBounds st ty (placeCons t) = mergeBounds b sib := by
+  have heq : trSibMember st o sib (.scalar ty n b) = tr st o (.item true) (.scalar ty n (mergeBounds b sib)) := by
+    rcases hty with h | h <;> subst h <;>
+      simp [trSibMember, tr, hc, sibFieldCons, fieldConsOfBounds, sibFam, famOf]
+  refine ⟨tr st o (.item true) (.scalar ty n (mergeBounds b sib)), ?_, rfl,
+    scalar_place_report st o (C03.tableOK st) _ ty n _ hok (by simp [strictSafe])⟩
+  rw [sibling_member_translated_alone, ← heq]
+  simp [altTys]
 
 open Dcg.Sem Dcg.Model.Translate Dcg.Model.Report Dcg.Proofs.Sem in
 /-- DICT VALUES (`additionalProperties: <scalar schema>`), PARTIAL: the keywords are reported unless
